@@ -38,6 +38,9 @@ FAILING = [
     # a Python scalar that does not fit the (small integer) dtype of the other operands (NumPy raises OverflowError)
     ("scalar-overflow", "IT8 + 300"),
     ("scalar-overflow-view", "IT8[:2] * 1000"),
+    # functions evaluated in two steps of which only the second fails
+    ("clip-bad-upper-bound", "mg.clip({s}, c1, BAD7)"),
+    ("clip-bad-upper-bound-out", "mg.clip({s}, c1, BAD7, out={s})"),
 ]
 # in-place statements that must fail when the memory they would write to is natively read-only
 RO_FAILING = [
